@@ -308,4 +308,50 @@ def wfStages4 (t : Val) : Bool :=
 def wfStages6 (t : Val) : Bool :=
   wfStages4 t && wfNeg [] (stage4 t) && wfUnquote (stage5 t)
 
+/-! ## Agreement of the staged tweaks with the one-shot specification `tweak` -/
+
+/-- The repr-prefix test of `replace_one_constant` agrees with the real kind of the value. -/
+def reprKindAgrees (rv : Str) (k : Kind) : Bool :=
+  (constantKindOfRepr rv).1 == kindTypeName k && (constantKindOfRepr rv).2 == kindFieldName k
+
+/-- A `Constant` is `(value)` or `(value, kind)`, both scalars, the repr of the value telling its kind. -/
+def constOkT (fs : List (Str × Val)) : Bool :=
+  match fs with
+  | [(n1, .scalar rv k)] => n1 == cs!"value" && reprKindAgrees rv k
+  | [(n1, .scalar rv k), (n2, .scalar _ _)] => n1 == cs!"value" && n2 == cs!"kind" && reprKindAgrees rv k
+  | _ => false
+
+/-- A `UnaryOp` is `(op, operand)`: a bare operator node and a node which is a `Constant` or has no field
+called `n`. -/
+def unaryOkT (fs : List (Str × Val)) : Bool :=
+  match fs with
+  | [(n1, .node t1 e1 _ ln1 fs1), (n2, .node t2 _ _ _ fs2)] =>
+    n1 == cs!"op" && n2 == cs!"operand" && !e1 && ln1.isNone && fs1.isEmpty && !(t1 == cs!"Constant") &&
+      (t2 == cs!"Constant" || !(fs2.map (·.1)).contains cs!"n")
+  | _ => false
+
+mutual
+/-- **`wfTweak`**: the shape / repr-kind agreement hypotheses under which the six staged tweaks equal the
+one-shot specification `tweak` (Bool-valued; evaluated by the driver on every real tree). -/
+def wfTweak : Val → Bool
+  | .node ty _ _ _ fs =>
+    (fs.map (·.1)).all nameOk &&
+      (if ty == cs!"Constant" then constOkT fs else if ty == cs!"UnaryOp" then unaryOkT fs else true) &&
+      wfTweakFields fs
+  | .list _ xs => wfTweakItems xs
+  | .scalar _ _ => true
+def wfTweakFields : List (Str × Val) → Bool
+  | [] => true
+  | (_, v) :: rest => wfTweak v && wfTweakFields rest
+def wfTweakItems : List Val → Bool
+  | [] => true
+  | v :: rest => wfTweak v && wfTweakItems rest
+end
+
+/-- The condition of `tweak` for silencing a `posonlyargs` length, on the reversed name path. -/
+def posPat (rn : List Str) : Bool :=
+  match rn with
+  | a :: b :: _ :: _ => a == cs!"posonlyargs" && b == cs!"args"
+  | _ => false
+
 end Paroxy.Flat
